@@ -13,7 +13,7 @@ CHECKS = {
     "C01": _c("Generated-input differential testing of the exported model against eager JAX in three layers: a sweep over every registered testcase with adversarial input pools (quick: seeded sample, thorough: all 1770 in both precisions), Hypothesis-generated well-typed compositions over ~130 guarded ops with blame localisation and input-class attribution, and dense elementwise lattices (half-integers, signed zeros, huge/tiny, all int8 pairs).",
               "Eager JAX (f32, with an f64 evaluation bounding JAX's own error) is the reference; ORT CPU executes the model; inputs given as fixed input_values are only rescaled; binning/structured-domain components are only reached through their authored inputs.",
               "Hypothesis program generation + catalog enumeration, differential oracle vs eager JAX with a JAX-f64 error band"),
-    "C02": _c("Differential testing of the real optimizer pipeline, one pass at a time, on Hypothesis-generated ONNX graphs built from pattern-seeded neighbourhoods of every rewrite rule plus free steps (symbolic dims, generated output sets, Loop/If captures at depth 1-2, shared constants, tensor side operands). Oracle: ORT(raw) == ORT(after pass k) in count, order, dtype, runtime shape and values; model stays checker-valid/loadable; declared output annotations stay consistent. Failures are bucketed by (pass, kind, flags), shrunk structurally and replayed from a committed corpus of former failures.",
+    "C02": _c("Differential testing of the real optimizer pipeline, one pass at a time, on Hypothesis-generated ONNX graphs built from pattern-seeded neighbourhoods of every rewrite rule plus free steps (symbolic dims, generated output sets, Loop/If captures at depth 1-2 aimed at fold interiors, shared constants, tensor side operands, calls of model-local functions that share an operator's name), and on raw lowered models of generated JAX programs (optimizer switched off in-process) with generated intermediates promoted to graph outputs, followed by the function-body stage. Oracle: ORT(raw) == ORT(after pass k) in count, order, dtype, runtime shape and values; model stays checker-valid/loadable; declared output annotations stay consistent. Failures are bucketed by (pass, kind, flags), shrunk structurally and replayed from a committed corpus of former failures.",
               "ORT CPU is trusted as the executable semantics of both sides; graphs are bounded (<= ~25 nodes, dims <= 5, ranks <= 4); Dropout with dynamic training mode is excluded (random).",
               "Hypothesis grammar-based graph generation + per-pass differential execution in ONNX Runtime, structural shrinking, regression corpus"),
     "C03": _c("Validity predicates (onnx checker full_check, strict shape inference, ORT session creation, and an independent scope/SSA/function-signature walker) over exports of registered testcases (both precisions, drawn opsets) and Hypothesis-generated control-flow programs, @onnx_function histories, compositions and mixtures under jointly drawn configurations (opset, double precision, symbolic dims, custom names, return mode).",
@@ -28,10 +28,10 @@ CHECKS = {
     "C06": _c("Generated control-flow programs (cond, switch, while incl. permuted multi-carry and data-dependent exit, fori incl. negative/empty bounds, scan with scanned inputs / two carries / stacked outputs / static, symbolic and zero length, reverse and unsupported variants; nesting <= 3) exported once and executed for every steering input (predicate, bound n, sequence length T) against eager JAX; unsupported variants must raise or be correct; failures are minimised to the construct that matters.",
               "Eager JAX is the reference for branch choice and trip count; non-finite steering inputs are skipped.",
               "Hypothesis control-flow grammar + steering-input enumeration, differential oracle vs eager JAX, body minimisation"),
-    "C07": _c("Hypothesis-generated histories of call sites over a module-level library of plain / @onnx_function / unique twins (nnx, equinox with static fields, plain classes, functions with kwargs, nested functions; generated weights, static config, kwargs incl. hash-colliding values, input shapes, symbolic batch). Oracles: decorated == plain twin == eager JAX; two call nodes share a definition only if their call sites are in the same semantic class; arity and reference rules from the independent walker.",
+    "C07": _c("Hypothesis-generated histories of call sites over a module-level library of plain / @onnx_function / unique twins (nnx, equinox with static fields, plain classes, functions with kwargs, nested functions, positional constants of the caller's graph, call-time flags in either keyword order run for all runtime flag values, a dtype-agnostic function on several element types; generated weights, static config, kwargs incl. hash-colliding values, input shapes, symbolic batch). Oracles: decorated == plain twin == eager JAX; two call nodes share a definition only if their call sites are in the same semantic class; arity and reference rules from the independent walker.",
               "The plain twin defines what the decorated program must compute; decorated targets live at module level.",
               "Hypothesis history generation with a reference-model (semantic-class partition) oracle and twin differential"),
-    "C08": _c("Every annotated value of exported models (registered testcases incl. symbolic, generated control flow, compositions) is made observable by rewriting the model (extra graph outputs, Loop scan outputs, inlined functions) and compared with the runtime dtype/rank/dims under several symbol bindings and trip counts; plus a before/after comparison around postprocess_ir_model (graph I/O untouched, intermediates only weakened).",
+    "C08": _c("Every annotated value of exported models (registered testcases incl. symbolic, generated control flow, compositions, @onnx_function call-site histories) is made observable by rewriting the model (extra graph outputs, Loop scan outputs, Loop-body output declarations read through the Loop node, function bodies run stand-alone per call site) and compared with the runtime dtype/rank/dims under several symbol bindings and trip counts; plus a before/after comparison around postprocess_ir_model (graph I/O untouched, intermediates only weakened).",
               "If-branch and function-internal annotations that cannot be exposed without changing semantics are counted, not checked.",
               "generated programs + model rewriting to observe annotations, invariant oracle (declared vs runtime)"),
     "C09": _c("Single precision: recursive scan of the returned ModelProto for any DOUBLE element type; double precision: when the x64 jaxpr has only float64 avals, ORT must agree with eager JAX x64 within 1e-9*scale on elements that a one-ulp input perturbation shows to be well conditioned (a float32 detour costs ~6e-8); the x64 flag must be unchanged after returning and raising calls. Programs: registered testcases, generated compositions, control flow, function histories.",
